@@ -545,11 +545,24 @@ class WCS(object):
         x = xy[0]
         y = xy[1]
         lon, lat = self.image2sky(x, y)
-        lonlat = np.zeros(2)
-        lonlat[0] = lon
-        lonlat[1] = lat
-        diff = lonlat - self.lonlat_answer
-        diff[0] = wrap_ra_diff(diff[0])
+        lon0, lat0 = self.lonlat_answer
+
+        # offset of the trial position from the target, in degrees, in the
+        # plane tangent to the sphere at the target (east, north).  Away from
+        # the poles this is (dlon*cos(lat), dlat) to first order; unlike the
+        # plain coordinate differences it stays well conditioned when the
+        # target is at or near a pole, where longitude is degenerate
+        dlon = wrap_ra_diff(float(lon) - lon0) * d2r
+        lat = float(lat) * d2r
+        lat0 = lat0 * d2r
+        coslat = np.cos(lat)
+
+        diff = np.zeros(2)
+        diff[0] = coslat * np.sin(dlon) * r2d
+        diff[1] = (
+            np.sin(lat - lat0)
+            + 2.0 * np.sin(lat0) * coslat * np.sin(0.5 * dlon) ** 2
+        ) * r2d
         return diff
 
     def _fsolve_xy(self, xyguess, xtol=DEFTOL):
